@@ -383,6 +383,8 @@ func C05(tier string) int {
 								run.Report(vf.Violation{Sig: fmt.Sprintf("%s|%s|problem", m.Full, transport), Detail: fmt.Sprintf("policy %s creds %s elements %v: %s", pol.Name, cred.Name, bs, prob), Replay: rep})
 							case !authed && ran:
 								run.Report(vf.Violation{Sig: fmt.Sprintf("%s|%s|unauthenticated-caller-reached-handler", m.Full, transport), Detail: fmt.Sprintf("policy %s creds %s: bulk handler ran (code %v)", pol.Name, cred.Name, code), Replay: rep})
+							case !authed && code == codes.DeadlineExceeded:
+								run.Report(vf.Violation{Sig: fmt.Sprintf("%s|%s|denied-call-never-answers", m.Full, transport), Detail: fmt.Sprintf("policy %s creds %s: the refused bulk call never returns (the handler did not run, which is right, but the caller gets no authentication error)", pol.Name, cred.Name), Replay: rep})
 							case authed && !ran:
 								run.Report(vf.Violation{Sig: fmt.Sprintf("%s|%s|authenticated-caller-blocked", m.Full, transport), Detail: fmt.Sprintf("policy %s creds %s elements %v: bulk handler did not run (code %v)", pol.Name, cred.Name, bs, code), Replay: rep})
 							case authed && strings.Join(seen, ",") != strings.Join(want, ","):
@@ -421,6 +423,10 @@ func C05(tier string) int {
 		}
 		env.close()
 	}
+	// part H: the same product over the HTTP gateway that the real server.Serve() sets up
+	hc, hs := c05HTTP(run, work, c05Policies(), methods, creds)
+	cases += hc
+	samples = append(samples, hs...)
 	os.Stdout = realStdout
 	run.Coverage["evaluations"] = cases
 	run.Coverage["methods"] = len(methods)
@@ -432,7 +438,7 @@ func C05(tier string) int {
 	run.Coverage["method_list"] = names
 	run.Coverage["policies"] = len(c05Policies())
 	run.Coverage["distinct_nontrivial"] = len(distinct)
-	run.Coverage["rule"] = "full product: every method of the 4 service descriptors x {grpc interceptor chain on bufconn, direct (gateway) client} x {no credentials, wrong password, u1, u2} x {g1,g2} x 10 policies; BulkAdd with 8 element streams per case; distinct = method x transport x authenticated x granted"
+	run.Coverage["rule"] = "full product: every method of the 4 service descriptors x {grpc interceptor chain on bufconn, direct (gateway) client} x {no credentials, wrong password, u1, u2} x {g1,g2} x 10 policies; BulkAdd with 8 element streams per case; plus every method with an HTTP route x the same credentials, graphs and policies against the real server.Serve() on localhost ports; distinct = method x transport x authenticated x granted"
 	run.Coverage["samples"] = samples
 	run.Coverage["exhaustive"] = true
 	run.Assume = []string{
@@ -440,6 +446,7 @@ func C05(tier string) int {
 		"policy semantics = the Casbin model shipped in test/model.conf, re-implemented in 10 lines as the reference evaluator; real Casbin enforcer and real BasicAuth are in the loop",
 		"'handler ran' = the call reached the stub server (Unimplemented*Server message, or the recording BulkAdd stub)",
 		"the request-logging interceptors of package server are pass-through and unexported; the chain is otherwise built as in Serve()",
+		"part H starts the real GripServer (Serve) on two free localhost TCP ports per policy with plugins enabled (with plugins disabled Serve() deliberately registers a null Configure service without interceptors); HTTP routes are read from gripql/gripql.proto; denied = status 401 or 403; a denied call must leave the key-value store byte-identical",
 	}
 	return run.Finish()
 }
